@@ -1,7 +1,7 @@
 import python_minifier.ast_compat as ast
 
 from python_minifier.rename.binding import BuiltinBinding, NameBinding
-from python_minifier.rename.util import builtins, get_global_namespace, get_nonlocal_namespace
+from python_minifier.rename.util import builtins, get_global_namespace, get_nonlocal_namespace, is_module_annotation_without_value
 
 
 def get_binding(name, namespace):
@@ -53,7 +53,7 @@ def resolve_names(node):
 
     """
 
-    if isinstance(node, ast.Name) and isinstance(node.ctx, ast.Load):
+    if isinstance(node, ast.Name) and (isinstance(node.ctx, ast.Load) or is_module_annotation_without_value(node)):
         get_binding(node.id, node.namespace).add_reference(node)
     elif isinstance(node, ast.Name) and node.id in node.namespace.nonlocal_names:
         binding = get_binding(node.id, node.namespace)
